@@ -483,6 +483,10 @@ def main():
     a = ap.parse_args()
     seed = int(os.environ.get("VERIF_SEED", "0") or 0)
     t_start = time.time()
+    free_gb = shutil.disk_usage(TARGET if os.path.exists(TARGET) else VERIF).free / (1 << 30)
+    if free_gb < 3:
+        log(f"less than 3 GB of disk left ({free_gb:.1f} GB): refusing to run (results would be truncated)")
+        return 2
     reg = load_registry()
     prop = a.prop.upper()
 
@@ -613,6 +617,15 @@ def main():
     if not a.no_evidence:
         write_evidence(prop, a.tier, seed, hs, results, arts, discharged, inconclusive, violations, unconfirmed,
                        kf_lines, replays, build_s, wall, features, caps)
+
+    # keep the disk clean: goto programs always go, CBMC output only stays for harnesses that need a look
+    for h in hs:
+        st = results[h["name"]]["status"]
+        for suf in (".out", ".symtab.out", ".prep.log") + ((".cbmc.json", ".trace.json") if st == "discharged" else ()):
+            try:
+                os.remove(os.path.join(workdir, h["name"] + suf))
+            except OSError:
+                pass
 
     for l in kf_lines:
         log(l)
